@@ -1,7 +1,10 @@
 package frugal
 
 import (
+	"bytes"
 	"reflect"
+
+	"github.com/apache/thrift/lib/go/thrift"
 )
 
 // C16: middleware intercepts every call exactly once, in the declared order.
@@ -36,8 +39,9 @@ func verifMiddleware(s verifMwSpec, trace *[]int) ServiceMiddleware {
 }
 
 // The wiring below is what every generated constructor does:
-//   middleware = append(middleware, provider.GetMiddleware()...)
-//   NewMethod(target, target.method, name, middleware)
+//
+//	middleware = append(middleware, provider.GetMiddleware()...)
+//	NewMethod(target, target.method, name, middleware)
 func VerifC16_Nesting() {
 	na, nb := verifParam()/4, verifParam()%4
 	var trace []int
@@ -212,4 +216,45 @@ func VerifC16_ErrorOnly() {
 type verifErrT struct{ s string }
 
 func (e *verifErrT) Error() string { return e.s }
-func verifErr(s string) error    { return &verifErrT{s} }
+func verifErr(s string) error      { return &verifErrT{s} }
+
+func init() {
+	verifHarnesses["VerifC16_ProcessorAddMiddleware"] = VerifC16_ProcessorAddMiddleware
+}
+
+// Middleware attached to a processor (constructor list, then AddMiddleware one or two
+// times with closures made by the same constructor function, as real middleware
+// factories do): every request passes through each exactly once, later-added outermost.
+func VerifC16_ProcessorAddMiddleware() {
+	var trace []int
+	h := &verifPingHandler{outcome: verifOutcome(verifOutValue, 0)}
+	nc, nadd := verifChoice(3), 1+verifChoice(2)
+	var ctor []ServiceMiddleware
+	var want []int
+	for i := 0; i < nc; i++ {
+		ctor = append(ctor, verifMiddleware(verifMwSpec{id: 1 + i}, &trace))
+	}
+	proc := verifPingProcessor(h, ctor...)
+	for i := 0; i < nadd; i++ {
+		proc.AddMiddleware(verifMiddleware(verifMwSpec{id: 101 + i}, &trace))
+	}
+	for i := nadd - 1; i >= 0; i-- {
+		want = append(want, 101+i)
+	}
+	for i := nc - 1; i >= 0; i-- {
+		want = append(want, 1+i)
+	}
+	pf := NewFProtocolFactory(thrift.NewTBinaryProtocolFactoryDefault())
+	fctx := NewFContext("c")
+	out := NewTMemoryOutputBuffer(0)
+	err := proc.Process(pf.GetProtocol(&thrift.TMemoryBuffer{Buffer: bytes.NewBuffer(verifRequestFrame(fctx, verifReqKnown, "a"))}), pf.GetProtocol(out))
+	verifAssert(err == nil && h.calls == 1, "the request is processed")
+	verifAssert(len(trace) == 2*len(want), "every middleware attached to the processor runs exactly once per request")
+	for i, id := range want {
+		verifAssert(trace[i] == id && trace[len(trace)-1-i] == -id, "nested in the fixed order: later-added outermost, then the constructor list from last to first")
+	}
+	if nadd == 2 {
+		verifReach("two-added")
+	}
+	verifReach("end")
+}
